@@ -109,6 +109,7 @@ type Exec struct {
 	syncFields map[string]*Object
 	views      map[string]*Object
 	regions    map[*ssa.BasicBlock]*regionInfo
+	garbage    map[string]bool
 	tickers    map[*Object]*Timer
 
 	// statistics (cumulative)
@@ -433,6 +434,7 @@ func (e *Exec) resetPath(prefix []Decision) {
 	e.views = nil
 	e.now = nil
 	e.tickers = map[*Object]*Timer{}
+	e.garbage = map[string]bool{}
 	for _, d := range prefix {
 		if d.Uncertain {
 			e.uncertain = true
